@@ -144,10 +144,13 @@ fn run_history(out: &mut dyn Write, line: &str) {
     // The closure handed to the pool owns over-aligned state (a u128 and a cache-padded block).
     let oalign = c.u64("oalign", 0) != 0;
     // An idle gap before broadcast `gapat`: pooled threads must survive it and be reused.
+    // Thread creation fails while broadcast `spawnfail` grows the pool (address-space limit lowered for its duration).
+    let spawn_fail_at = c.i64("spawnfail", -1);
     let gap_at = c.i64("gapat", -1);
     let gap_ms = c.u64("gapms", 0);
     let pe_lines: std::sync::Mutex<Vec<String>> = std::sync::Mutex::new(Vec::new());
     let tc_line: std::sync::Mutex<Vec<(usize, usize)>> = std::sync::Mutex::new(Vec::new());
+    let sf_lines: std::sync::Mutex<Vec<String>> = std::sync::Mutex::new(Vec::new());
     {
         let pool = Pool::new();
         // One caller thread runs a contiguous segment of the history; with several callers the segments run one after the
@@ -160,6 +163,52 @@ fn run_history(out: &mut dyn Write, line: &str) {
             let off = offsets[b];
             if gap_ms > 0 && gap_at == b as i64 {
                 std::thread::sleep(std::time::Duration::from_millis(gap_ms));
+            }
+            if spawn_fail_at == b as i64 {
+                // No new thread stack can be mapped during this broadcast. It either completes (enough workers exist) or
+                // leaves by a panic; in both cases no call may still be running, or start, once control is back here.
+                let started_before: u64 = (0..=n).map(|i| calls[off + i].load(Relaxed)).sum();
+                evlog::log(evlog::BCAST_CALL, b as u64, n as u64, 0);
+                let old = lower_address_space_limit();
+                let r = std::panic::catch_unwind(std::panic::AssertUnwindSafe(|| {
+                    pool.broadcast(n, |index| {
+                        let k = evlog::kidx();
+                        if k >= 1 && k < 0xFFFE {
+                            install_exit_guard();
+                        }
+                        evlog::log(evlog::TASK_BEGIN, b as u64, index as u64, 0);
+                        calls[off + index].fetch_add(1, Relaxed);
+                        delay(3, damount);
+                        unsafe { *cells.cell(off + index) = token(b, index) };
+                        evlog::log(evlog::TASK_END, b as u64, index as u64, 0);
+                    })
+                }));
+                restore_address_space_limit(old);
+                evlog::log(evlog::BCAST_RETURN, b as u64, n as u64, r.is_err() as u64);
+                let done_at_return: Vec<u64> = (0..=n).map(|i| unsafe { *cells.cell(off + i) }).collect();
+                let started_at_return: Vec<u64> = (0..=n).map(|i| calls[off + i].load(Relaxed)).collect();
+                std::thread::sleep(std::time::Duration::from_millis(40));
+                for i in 0..=n {
+                    let started_later = calls[off + i].load(Relaxed);
+                    let finished = done_at_return[i] == token(b, i);
+                    if started_at_return[i] != 0 && !finished {
+                        online_violation(11, b as u64, i as u64, "broadcast left by a panic while a call it started was still running");
+                    }
+                    if started_later != started_at_return[i] {
+                        online_violation(12, b as u64, i as u64, "a call of the broadcast started after the broadcast was left");
+                    }
+                    if r.is_ok() && started_later != 1 {
+                        online_violation(5, b as u64, started_later, "call count != 1 at return");
+                    }
+                    // make the bookkeeping below hold for this broadcast whatever happened
+                    calls[off + i].store(1, Relaxed);
+                    unsafe { *cells.cell(off + i) = token(b, i) };
+                }
+                let _ = started_before;
+                sf_lines.lock().unwrap().push(format!("SF {} unwound={} started={:?}", b, r.is_err() as u8, started_at_return));
+                let tc = pool.thread_count();
+                tc_line.lock().unwrap().push((b, tc));
+                continue;
             }
             // State that lives in this frame exactly as long as the broadcast's task block.
             let marker: [u64; 4] = [token(b, 0), !token(b, 0), seed, b as u64];
@@ -356,6 +405,9 @@ fn run_history(out: &mut dyn Write, line: &str) {
     for l in pe_lines.lock().unwrap().iter() {
         let _ = writeln!(out, "{l}");
     }
+    for l in sf_lines.lock().unwrap().iter() {
+        let _ = writeln!(out, "{l}");
+    }
     if c.u64("dump", 1) != 0 {
         evlog::dump(out);
     }
@@ -388,6 +440,30 @@ fn do_broadcast<F: Fn(usize) -> u64 + Sync>(pool: &Pool, n: usize, catch: bool, 
         });
         false
     }
+}
+
+extern "C" {
+    fn getrlimit(resource: i32, rlim: *mut [u64; 2]) -> i32;
+    fn setrlimit(resource: i32, rlim: *const [u64; 2]) -> i32;
+}
+const RLIMIT_AS: i32 = 9;
+
+/// Lowers the soft address-space limit to the current size plus a little headroom (enough for the panic machinery, not for a
+/// thread stack). Returns the old limit.
+fn lower_address_space_limit() -> [u64; 2] {
+    let mut old = [0u64; 2];
+    unsafe { getrlimit(RLIMIT_AS, &mut old) };
+    let statm = std::fs::read_to_string("/proc/self/statm").unwrap_or_default();
+    let pages: u64 = statm.split_whitespace().next().and_then(|x| x.parse().ok()).unwrap_or(0);
+    if pages > 0 {
+        let new = [pages * 4096 + (768 << 10), old[1]];
+        unsafe { setrlimit(RLIMIT_AS, &new) };
+    }
+    old
+}
+
+fn restore_address_space_limit(old: [u64; 2]) {
+    unsafe { setrlimit(RLIMIT_AS, &old) };
 }
 
 /// Over-aligned closure state.
